@@ -14,6 +14,13 @@
 // replayed to the real client ending after every byte offset, cleanly and with a
 // read error.
 //
+// Plus the dimension "cloner configuration" (cloners.go): the in-process channel
+// with nothing configured / CodecCloner(proto codec) / CloneFunc(f) / CopyFunc(f)
+// (f a correct user function of the checker), crossed with what the receiver
+// passes as destination: a junk-filled message, a fresh one, or ONE object for
+// all receives of the RPC (it still holds the previous message of the stream);
+// the destination modes are also run with nothing configured on both transports.
+//
 // Oracle (harness.go, onRecv / finishChecks): at every receive return the
 // message obtained is proto.Equal to the message the peer sent at that position
 // and the peer had handed it to the library by then; receive destinations are
@@ -128,6 +135,34 @@ func enumerate(transports []string, thorough bool) []kase {
 					}
 				}
 			}
+			// the cloner configuration of the in-process channel x what the receiver passes as
+			// destination (junk-filled / fresh / one object reused for all receives of the RPC);
+			// the destination modes also with nothing configured, on every transport
+			for _, cl := range cloners {
+				for _, dm := range []string{"", "fresh", "reuse"} {
+					if cl == "" && dm == "" {
+						continue // above
+					}
+					for _, kind := range kinds {
+						for _, sp := range counts(kind, 3) {
+							if !thorough && (sp.N == 2 || sp.M == 2) {
+								continue
+							}
+							for _, herr := range []bool{false, true} {
+								if herr && dm != "" {
+									continue
+								}
+								for _, tr := range transports {
+									if cl != "" && tr != "inproc" {
+										continue
+									}
+									out = append(out, kase{Engine: "E2", Transport: tr, Shape: s.Name, SendRep: rp.send, RecvRep: rp.recv, HandlerErr: herr, RPC: sp, Cloner: cl, Dest: dm})
+								}
+							}
+						}
+					}
+				}
+			}
 			// a sender that reuses one message object for all its sends, with a lagging receiver
 			if !isHuge(s) {
 				for _, sp := range []rpcSpec{{"client-stream", 3, 1}, {"server-stream", 1, 3}, {"bidi", 3, 3}} {
@@ -180,6 +215,9 @@ func main() {
 		var k kase
 		if err := common.LoadReplay(p, &k); err != nil {
 			inconclusive("cannot load replay: " + err.Error())
+		}
+		if clonerIdx(k.Cloner) < 0 || (k.Cloner != "" && k.Transport != "inproc") || (k.Dest != "" && k.Dest != "fresh" && k.Dest != "reuse") || (k.Dest != "" && k.Cut != nil) {
+			inconclusive("replay file does not describe a case of the C01 content part (cloner / dest)")
 		}
 		if k.Engine != "E2" || shapeByName[k.Shape] == nil || kindIdx(k.RPC.Kind) < 0 || (k.Transport != "inproc" && k.Transport != "http") {
 			inconclusive("replay file does not describe a case of the C01 content part")
@@ -251,6 +289,9 @@ func main() {
 				c = k.Transport + "|concurrent"
 			}
 			perClass[c]++
+			if k.Cloner != "" || k.Dest != "" {
+				perClass[trLabel(k)+"|dest="+map[string]string{"": "junk", "fresh": "fresh", "reuse": "reuse"}[k.Dest]]++
+			}
 		}
 		sk := k.Transport + "|" + k.RPC.Kind
 		if k.RPC2 != nil {
@@ -297,6 +338,7 @@ func main() {
 		"evaluations":         evals,
 		"distinct_nontrivial": len(distinct) + cs.distinct,
 		"rule": "every (shape, sender/receiver representation, RPC kind, request count, response count, handler outcome, transport) of the grammar, and every unordered pair of kinds run concurrently on one channel, " +
+			"and, for the in-process channel, every cloner configuration (none / CodecCloner / CloneFunc / CopyFunc) x receive destination (junk-filled / fresh / one reused object) [the destination modes with no cloner configured on both transports; quick tier: counts 0, 1, 3] " +
 			"is run through the real channel and server. A case is non-trivial when at least one message was obtained by a receiver through the transport and compared with the message sent at that position " +
 			"(in-process: frame through the per-RPC Go channel and the cloner; HTTP: unary body or length-prefixed frame of io.go), or a clause failed; distinct by all case parameters. " +
 			"Reply-cut dimension (HTTP): for every (shape, representation pair, kind, response count 0..3, handler outcome) with one request the real server's reply is recorded once and replayed to the real client cut after every offset of the sweep " +
